@@ -16,6 +16,11 @@ fn keys() -> Vec<Vec<u8>> {
         v.push((0..l).map(|i| (i as u8).wrapping_mul(91).wrapping_add(0xc3)).collect());
     }
     v.push(vec![0u8; 8]);
+    // keys with particular byte values: some (not all) bytes zero, 0xff, a single non-zero byte at either end
+    v.push(vec![0x5a, 0x31, 0x13, 0x00, 0x88, 0x9e, 0x21, 0xf4]);
+    v.push(vec![0, 0, 0, 0, 0, 0, 0, 1]);
+    v.push(vec![0x80, 0, 0, 0, 0, 0, 0, 0]);
+    v.push(vec![0xff; 8]);
     v
 }
 
@@ -29,7 +34,7 @@ pub fn run() -> Report {
     let big = {
         let mut cb = ChainBuilder::with_genesis(btc);
         for (k, sz) in [40_000usize, 100_000, 300].iter().enumerate() {
-            let tx = Tx { version: 1, segwit: false, inputs: vec![TxIn::spend([0xee; 32], k as u32)], outputs: vec![TxOut { value: 5, script: vec![0x51; *sz] }, refmodel::chain::pay(9, 77)], locktime: 0 };
+            let tx = Tx { version: 1, segwit: false, inputs: vec![TxIn::spend([0xee; 32], k as u32)], outputs: vec![TxOut { value: 5, script: vec![0x51; *sz] }, refmodel::chain::pay(9, 77)], locktime: 0, wide: 0 };
             cb.push(vec![tx]);
         }
         cb
@@ -71,7 +76,7 @@ pub fn run() -> Report {
             cases.push(Case { big: false, layout: layout.clone(), key, cbs: vec!["csvdump", "unspentcsvdump"] });
         }
     }
-    rep.rule = format!("all arrangements of {} blocks into <=3 files x gaps (none / 13 odd garbage bytes) x keys of length 1,2,3,7,8,9,64 and 8 zero bytes, XOR applied from file offset 0, every other case with --verify; blocks of 40 KiB and 100 KiB in forward / backward / mixed order; sparse offsets beyond 4 GiB; csvdump for every case and all five callbacks for every 6th: output must be identical to the plaintext directory's (differential oracle; the plaintext csvdump run is additionally compared with the model once per layout); non-trivial = distinct (layout, key)", n);
+    rep.rule = format!("all arrangements of {} blocks into <=3 files x gaps (none / 13 odd garbage bytes) x keys of length 1,2,3,7,8,9,64, 8 zero bytes, 8-byte keys with one zero byte / one non-zero byte at either end / all 0xff, XOR applied from file offset 0, every other case with --verify; blocks of 40 KiB and 100 KiB in forward / backward / mixed order; sparse offsets beyond 4 GiB; csvdump for every case and all five callbacks for every 6th: output must be identical to the plaintext directory's (differential oracle; the plaintext csvdump run is additionally compared with the model once per layout); non-trivial = distinct (layout, key)", n);
     rep.bound = json!({"blocks": n, "cases": cases.len(), "keys": keys().len()});
     rep.not_covered = vec!["empty xor.dat (outside the statement)".into()];
     let root = refmodel::world::scratch_root();
